@@ -25,13 +25,12 @@ impl Matcher for EmptyMatcher {
             match file_info.metadata() {
                 Ok(meta) => meta.len() == 0,
                 Err(err) => {
-                    writeln!(
+                    let _ = writeln!(
                         &mut stderr(),
                         "Error getting size for {}: {}",
                         file_info.path().display(),
                         err
-                    )
-                    .unwrap();
+                    );
                     false
                 }
             }
@@ -39,13 +38,12 @@ impl Matcher for EmptyMatcher {
             match read_dir(file_info.path()) {
                 Ok(mut it) => it.next().is_none(),
                 Err(err) => {
-                    writeln!(
+                    let _ = writeln!(
                         &mut stderr(),
                         "Error getting contents of {}: {}",
                         file_info.path().display(),
                         err
-                    )
-                    .unwrap();
+                    );
                     false
                 }
             }
